@@ -76,8 +76,9 @@ package reconciledloader
 //@   requires forall j int :: 0 <= j && j < len(newItems) ==> newItems[j] != nil && isalloc(newItems[j])
 //@   requires rq.head != nil ==> rq.tail != nil && isalloc(rq.head)
 //@   modifies rq.head, rq.tail, rq.dataSize, remotedLinkedItem.next
-//@   loop 1 invariant rq.head != nil ==> rq.tail != nil && isalloc(rq.head)
+//@   loop 1 invariant (rq.head != nil ==> rq.tail != nil && isalloc(rq.head)) && (old(rq.tail) != nil ==> rq.tail != nil)
 //@   ensures rq.head != nil ==> rq.tail != nil && isalloc(rq.head)
+//@   ensures old(rq.tail) != nil ==> rq.tail != nil
 
 //@ inlineobj ReconciledLoader.remoteQueue ReconciledLoader.pathTracker
 
@@ -151,6 +152,7 @@ package reconciledloader
 //@ pred attemptOK(rl *ReconciledLoader) := rl.mostRecentLoadAttempt.link == nil || isCidLink(rl.mostRecentLoadAttempt.link)
 //@ pred linv(rl *ReconciledLoader) := wf(rl) && allGood() && qinv(rl.remoteQueue) && recOK() && isT(rl.traversalRecord) && attemptOK(rl)
 //@    && (rl.remoteQueue.head != nil ==> rl.remoteQueue.tail != nil && isalloc(rl.remoteQueue.head))
+//@    && (rl.remoteQueue.lastConsumed != nil ==> rl.remoteQueue.tail != nil)
 //@    && (rl.verifier != nil ==> stackOK(rl.verifier) && atLink(rl.verifier))
 
 //@ func std:sync.Cond.Wait
@@ -201,3 +203,31 @@ package reconciledloader
 //@   ensures result.Err == nil && !result.Local ==> isSumOf(linkCid(link), result.Data)
 //@   ensures vfail != old(vfail) ==> result.Err != nil
 //@   ensures rl.mostRecentLoadAttempt.link == link && rl.mostRecentLoadAttempt.successful == (result.Err == nil)
+
+//@ -- going online starts a replay of everything loaded so far against what the remote will send (C02 / C06)
+//@ func ReconciledLoader.SetRemoteOnline
+//@   requires linv(rl)
+//@   modifies alloc, ReconciledLoader.open, ReconciledLoader.verifier, traversalrecord.Verifier.stack, traversalrecord.traversalLink.segment, traversalrecord.traversalLink.TraversalRecord
+//@   ensures linv(rl) && rl.open == online
+//@   ensures online && !old(rl.open) ==> rl.verifier != nil && fresh(rl.verifier)
+//@   ensures !(online && !old(rl.open)) ==> rl.verifier == old(rl.verifier)
+
+//@ func ReconciledLoader.Cleanup
+//@   requires linv(rl)
+//@   requires forall n *remotedLinkedItem :: n != nil ==> isalloc(n)
+//@   modifies remoteQueue.head, remoteQueue.tail, remoteQueue.lastConsumed, remoteQueue.dataSize, remotedLinkedItem.remoteItem
+//@   ensures linv(rl) && rl.remoteQueue.head == nil && rl.remoteQueue.lastConsumed == nil
+
+//@ -- C06: a retry puts back at most the one item the failed load had consumed and then loads the same link again
+//@ func ReconciledLoader.RetryLastLoad
+//@   requires linv(rl)
+//@   modifies alloc, vfail, recNodes, remoteQueue.head, remoteQueue.tail, remoteQueue.dataSize, remoteQueue.lastConsumed, remotedLinkedItem.next, remotedLinkedItem.remoteItem, ReconciledLoader.open, ReconciledLoader.verifier, ReconciledLoader.mostRecentLoadAttempt, traversalrecord.Verifier.stack, pathTracker.lastUnfollowedRemotePath, traversalrecord.TraversalRecord.link, traversalrecord.TraversalRecord.successful, traversalrecord.TraversalRecord.children, traversalrecord.TraversalRecord.childSegments, traversalrecord.traversalLink.segment, traversalrecord.traversalLink.TraversalRecord, allmaps("map[datamodel.PathSegment]int")
+//@   ensures linv(rl)
+//@   ensures old(rl.mostRecentLoadAttempt.link) == nil ==> result.Err != nil
+//@   ensures old(rl.mostRecentLoadAttempt.link) != nil && result.Err == nil && !result.Local ==> isSumOf(linkCid(old(rl.mostRecentLoadAttempt.link)), result.Data)
+//@   ensures vfail != old(vfail) ==> result.Err != nil
+
+//@ func NewReconciledLoader
+//@   requires recOK() && allGood() && localStore != nil
+//@   modifies alloc, recNodes, allmaps("map[datamodel.PathSegment]int")
+//@   ensures linv(result) && fresh(result) && !result.open && result.verifier == nil && result.remoteQueue.head == nil
